@@ -303,6 +303,37 @@ def _local_mutators(body, operand):
     return out
 
 
+def _loop_fill(ctx, b, d, term, kind):
+    """the table is an empty collection filled by ONE loop over an aligned source with exactly one unconditional
+    insert / push per element (the explicit form of `source.iter().map(..).collect()`): True / False / None (= not this form)"""
+    if term[0] != "mutated":
+        return None
+    base, callees = term[1], term[2]
+    bn = mir._strip_generics(base[1]).rsplit("::", 1)[-1] if base[0] == "call" else None
+    if bn not in ("default", "new", "with_capacity", "with_capacity_and_hasher", "with_hasher"):
+        return None
+    if not all(c.rsplit("::", 1)[-1] in ("insert", "push") for c in callees):
+        return False
+    fills = []
+    for v in common.elementwise_views(ctx, d):
+        if v["kind"] != "loop":
+            continue
+        mine = [c for c in v["calls"] if c[0].split("(", 1)[0].rsplit("::", 1)[-1] == "insert" and c[0].split("(", 1)[1].startswith(render(term))]
+        mine += [("push", p[2]) for p in v["pushes"] if p[0] == term]
+        if mine:
+            fills.append((v, mine))
+    if len(fills) != 1:
+        return False
+    v, mine = fills[0]
+    src = v["source_term"]
+    # `instruments.exchanges()` style accessor of IndexedInstruments or a direct field
+    names, root = _chain(src)
+    rk = _root_kind(ctx, b, root)
+    if rk is None and src[0] == "call" and src[1].startswith(II + "::") and len(src[2]) == 1:
+        rk = II_FIELDS.get(src[1].rsplit("::", 1)[-1])
+    return len(mine) == 1 and mine[0][1] == "true" and rk == kind
+
+
 def _check_chain(ctx, body, term, kind, anchor, site):
     names, root = _chain(term)
     bad = [n for n in names if not mir._strip_generics(n).endswith(ORDER_PRESERVING)]
@@ -353,6 +384,13 @@ def idx_r2(ctx, only=None, floor=6):
                                       sites=[s["sp"]], got=render(term), key="from_iter")
                             n += 1
                         else:
+                            lf = _loop_fill(ctx, b, d, term, kind)
+                            if lf is not None:
+                                ctx.check(anchor, lf, "the table is filled by one loop over the %s index space with exactly one unconditional "
+                                          "insert per element (order and length preserved)" % kind, sites=[s["sp"]], got=render(term)[:160], key="loop-fill")
+                                if lf:
+                                    n += 1
+                                continue
                             muts = _local_mutators(b, rv["ops"][i])
                             ctx.check(anchor, not muts, "the table is not reordered / filtered between being filled and being stored",
                                       sites=[x[1] for x in muts], got=[x[0] for x in muts], key="mutated-before-store")
